@@ -216,3 +216,61 @@ Proof.
   intros E Hct Hh Hs. unfold do_call. rewrite E. cbn. rewrite Hs.
   unfold wire_headers, eff_ct, call_headers. rewrite Hct, Hh. now rewrite app_nil_r.
 Qed.
+
+(* ================================================================================================
+   Routes over a shared request message (model: last part of Conc.v)
+   ================================================================================================ *)
+Lemma find_sroute_nodup table r :
+  NoDup (map sr_name table) -> In r table -> find_sroute table (sr_name r) = Some r.
+Proof.
+  unfold find_sroute. induction table as [|r' t IH]; intros Hnd Hin; [contradiction|].
+  cbn in Hnd. inversion Hnd as [|? ? Hnotin Hnd']; subst. cbn.
+  destruct (str_eqb (sr_name r') (sr_name r)) eqn:E.
+  - apply str_eqb_eq in E. destruct Hin as [->|Hin]; [reflexivity|].
+    exfalso. apply Hnotin. rewrite E. now apply in_map.
+  - destruct Hin as [->|Hin].
+    + rewrite str_eqb_refl in E. discriminate.
+    + now apply IH.
+Qed.
+
+(* Whatever else is registered (routes over the SAME request message with other path-variable sets,
+   other verbs), and whatever was requested before or is requested afterwards, a request addressed to
+   route r is bound with r's OWN path variables and query parameters. *)
+Theorem shared_message_isolated table r pre rq post :
+  NoDup (map sr_name table) -> In r table -> sq_route rq = sr_name r ->
+  nth_error (run_shared table (pre ++ rq :: post)) (List.length pre) = Some (Some (serve_shared r rq)).
+Proof.
+  intros Hnd Hin Hr. unfold run_shared. rewrite map_app. rewrite nth_error_app2; rewrite map_length; [|lia].
+  rewrite Nat.sub_diag. cbn. unfold serve_shared_in. rewrite Hr, (find_sroute_nodup table r Hnd Hin). reflexivity.
+Qed.
+
+(* ... which is what the same request gets from a server that registers r alone *)
+Corollary shared_message_as_alone table r pre rq post :
+  NoDup (map sr_name table) -> In r table -> sq_route rq = sr_name r ->
+  nth_error (run_shared table (pre ++ rq :: post)) (List.length pre) = nth_error (run_shared [r] [rq]) 0.
+Proof.
+  intros Hnd Hin Hr. rewrite (shared_message_isolated table r pre rq post Hnd Hin Hr).
+  cbn. unfold serve_shared_in, find_sroute. cbn. rewrite Hr, str_eqb_refl. reflexivity.
+Qed.
+
+(* a path variable the route does not declare is never bound: the field keeps what the body gave it *)
+Lemma fset_other k v k' m : str_eqb k k' = false -> flookup k' (fset k v m) = flookup k' m.
+Proof.
+  intros Hne. induction m as [|[a b] t IH]; cbn.
+  - rewrite Hne. reflexivity.
+  - destruct (str_eqb a k) eqn:E; cbn.
+    + destruct (str_eqb a k') eqn:E'; [|reflexivity].
+      apply str_eqb_eq in E. apply str_eqb_eq in E'. subst. rewrite str_eqb_refl in Hne. discriminate.
+    + destruct (str_eqb a k'); [reflexivity|exact IH].
+Qed.
+
+Lemma bind_path_undeclared params pv f : ~ In f params -> forall m m',
+  bind_path params pv m = SDispatch m' -> flookup f m' = flookup f m.
+Proof.
+  intros Hnot. induction params as [|p r IH]; intros m m' H; cbn in H.
+  - now inversion H.
+  - destruct (flookup p pv) as [[|c v]|]; try discriminate.
+    assert (Hp : str_eqb p f = false).
+    { destruct (str_eqb p f) eqn:E; [|reflexivity]. apply str_eqb_eq in E. subst. exfalso. apply Hnot. now left. }
+    rewrite (IH (fun Hin => Hnot (or_intror Hin)) _ _ H). now apply fset_other.
+Qed.
